@@ -444,6 +444,33 @@ pub fn run(tier: &str, c10: bool) -> i32 {
             }
         }
     });
+    // grow-and-retry family (C01): 125-180 KB of small-alphabet noise compresses to more than
+    // half its size, so compress_to_vec's output vector fills up in the middle of a block flush and
+    // the compressor is re-entered with pending output and, at lazy levels, a pending match
+    let mut retry_evals = 0u64;
+    if !c10 {
+        // only alphabets/sizes whose output outgrows input/2 between the first and the second block
+        // flush; a pending lazy match at that very flush is a ~1% event per (input, level), hence
+        // several hundred inputs (measured with a seeded change: 25-60 hits per run)
+        let mut fam: Vec<(usize, usize, u64)> = vec![];
+        for &k in &[20usize, 24, 28, 32, 40, 48] {
+            for &n in &[125_000usize, 131_072, 140_000] {
+                for sd in 0..(if th { 64u64 } else { 24 }) {
+                    fam.push((k, n, sd));
+                }
+            }
+        }
+        let lv: Vec<u8> = vec![4, 5, 6, 7, 8, 9, 10];
+        let a3 = par_for(fam.len(), Acc::new, |i, acc| {
+            watchdog::tick(2_000_000 + i as u64, 0);
+            let (k, n, sd) = fam[i];
+            let mut l = crate::util::Lcg(0xA11CE ^ (sd << 8) ^ k as u64 ^ crate::util::seed());
+            let data: Vec<u8> = (0..n).map(|_| b'a' + (l.next_u32() % k as u32) as u8).collect();
+            let inp = Input { name: format!("noise{}x{}#{}", k, n, sd), data };
+            c01_case(&inp, &lv, acc, &rep, false);
+        });
+        retry_evals = a3.iter().map(|a| a.evals).sum();
+    }
     // 64 fixed inputs x all 256 levels (C01)
     let mut all_levels_evals = 0u64;
     if !c10 {
@@ -457,7 +484,8 @@ pub fn run(tier: &str, c10: bool) -> i32 {
     }
     let red = if c10 { redundancy(&rep) } else { 0 };
     // ---- merge -------------------------------------------------------------------------
-    let mut evals = all_levels_evals + red;
+    let mut evals = all_levels_evals + red + retry_evals;
+    rep.set("grow_and_retry_family_evaluations", json!(retry_evals));
     let mut inputs_set: HashSet<u128> = HashSet::new();
     let mut nontriv: HashSet<u128> = HashSet::new();
     let mut btypes = [0u64; 3];
